@@ -4,6 +4,8 @@
 //!   acc <type> <field> get <bufhex>               => <value>
 //!   acc <type> <field> set|seto <value> <bufhex>  => <bufhex after>
 //!   new|new_view <type> <len>                      => ok|err
+//!   c12pay <type> <bufhex> <payloadhex>            => <bufhex after> | fault:panic
+//!       (`set_payload` through `new`, under catch_unwind; the thirteen packet types that have one)
 //! `<value>`: decimal for integer fields, `Name/id` for enum getters, decimal id for enum setters
 //! (`set` builds the enum with `From<u8>`, `seto` with the `Other(v)` variant), hex octets for addresses.
 //!
@@ -14,6 +16,14 @@
 //!        and the code's own getter reads `v mod 2^w` back;
 //!   get: the getter equals the slice, and the viewed buffer is unchanged;
 //!   new: succeeds iff len >= the RFC minimum header size (the error carries that minimum and the length).
+//!   c12pay: `rfc_payload_offset` below gives the octet at which the RFC puts the payload (IPv4: IHL 32-bit words,
+//!        RFC 791 3.1; TCP: data offset 32-bit words, RFC 9293 3.1; both read with `slice` from the RFC table and
+//!        never below the fixed 20-octet header; IPv6 40, UDP / ICMP 8, extension object 4).  A payload that fits
+//!        behind that offset must be accepted: same length, every octet before the offset (the header INCLUDING
+//!        options) and every octet behind the payload unchanged, the payload octets at the offset, and the code's
+//!        own `payload()` / `payload_raw()` must return it from there (cut at the length field for IPv6 and the
+//!        extension object, which is computed here from the RFC position of that field).  A payload that does not
+//!        fit must panic (the only way the API can refuse) - anything else is a failure.
 use crate::rng::{hex, unhex, Rng};
 use crate::{Args, Out};
 use std::net::{Ipv4Addr, Ipv6Addr};
@@ -406,6 +416,80 @@ fn ctors() -> Vec<(&'static str, Ctor, Ctor)> {
 }
 
 // ------------------------------------------------------------------------------------------------
+// payload setters: the code under test and the oracle's own RFC payload position
+// ------------------------------------------------------------------------------------------------
+
+type SetPayload = fn(&mut [u8], &[u8]);
+/// what the code's read side returns for the payload (`payload()`; `payload_raw()` for the ICMP error messages,
+/// whose `payload()` is cut by the RFC 4884 splitter - property C14)
+type GetPayload = fn(&[u8]) -> Vec<u8>;
+
+macro_rules! pay {
+    ($ty:literal, $P:ty, $read:ident) => {
+        (
+            $ty,
+            (|b: &mut [u8], p: &[u8]| <$P>::new(b).unwrap().set_payload(p)) as SetPayload,
+            (|b: &[u8]| <$P>::new_view(b).unwrap().$read().to_vec()) as GetPayload,
+        )
+    };
+}
+fn payload_setters() -> Vec<(&'static str, SetPayload, GetPayload)> {
+    vec![
+        pay!("ipv4", Ipv4Packet, payload),
+        pay!("ipv6", Ipv6Packet, payload),
+        pay!("udp", UdpPacket, payload),
+        pay!("tcp", TcpPacket, payload),
+        pay!("icmp4_echo_request", icmpv4::echo_request::EchoRequestPacket, payload),
+        pay!("icmp4_echo_reply", icmpv4::echo_reply::EchoReplyPacket, payload),
+        pay!("icmp4_time_exceeded", icmpv4::time_exceeded::TimeExceededPacket, payload_raw),
+        pay!("icmp4_dest_unreachable", icmpv4::destination_unreachable::DestinationUnreachablePacket, payload_raw),
+        pay!("icmp6_echo_request", icmpv6::echo_request::EchoRequestPacket, payload),
+        pay!("icmp6_echo_reply", icmpv6::echo_reply::EchoReplyPacket, payload),
+        pay!("icmp6_time_exceeded", icmpv6::time_exceeded::TimeExceededPacket, payload_raw),
+        pay!("icmp6_dest_unreachable", icmpv6::destination_unreachable::DestinationUnreachablePacket, payload_raw),
+        pay!("ext_object", ExtensionObjectPacket, payload),
+    ]
+}
+
+/// The octet at which the RFC puts the payload, from the buffer alone.  Written from the RFCs: the IPv4 header
+/// is IHL 32-bit words long (RFC 791 3.1, options included), the TCP header `data offset` 32-bit words
+/// (RFC 9293 3.1, options included); a value below 5 is illegal in both and cannot make the header shorter than
+/// its fixed part.  The IPv6 fixed header is 40 octets (RFC 8200 3; extension headers belong to the payload as far
+/// as this accessor is concerned), UDP 8 (RFC 768), ICMP 8 (RFC 792 / 4443), the extension object header 4 (RFC 4884 7.1).
+fn rfc_payload_offset(ty: &str, buf: &[u8]) -> usize {
+    let min = rfc_min(ty);
+    match ty {
+        "ipv4" => {
+            let (off, w) = rfc_pos("ipv4", "header_length");
+            (slice(buf, off, w) as usize * 4).max(min)
+        }
+        "tcp" => {
+            let (off, w) = rfc_pos("tcp", "data_offset");
+            (slice(buf, off, w) as usize * 4).max(min)
+        }
+        _ => min,
+    }
+}
+
+/// where the read side must stop: the end of the buffer, except where an RFC length field bounds the payload
+/// and the accessor honours it (IPv6 payload length: octets behind the fixed header; extension object length:
+/// octets including the 4-octet object header)
+fn rfc_payload_end(ty: &str, buf: &[u8]) -> usize {
+    let start = rfc_payload_offset(ty, buf);
+    match ty {
+        "ipv6" => {
+            let (off, w) = rfc_pos("ipv6", "payload_length");
+            (start + slice(buf, off, w) as usize).min(buf.len())
+        }
+        "ext_object" => {
+            let (off, w) = rfc_pos("ext_object", "length");
+            (slice(buf, off, w) as usize).max(start).min(buf.len())
+        }
+        _ => buf.len(),
+    }
+}
+
+// ------------------------------------------------------------------------------------------------
 // cases
 // ------------------------------------------------------------------------------------------------
 
@@ -430,6 +514,11 @@ struct Stats {
     new_cases: usize,
     truncating: usize,
     nonzero_base: usize,
+    pay_cases: usize,
+    pay_fit: usize,
+    pay_exact_fit: usize,
+    pay_no_fit: usize,
+    pay_with_options: usize,
 }
 
 fn set_case(f: &Field, v: u128, other: bool, base: &[u8], out: &mut Out, st: &mut Stats) {
@@ -523,6 +612,55 @@ fn new_case(name: &str, view: bool, c: Ctor, len: usize, out: &mut Out, st: &mut
     }
 }
 
+fn pay_case(ty: &str, set: SetPayload, read: GetPayload, base: &[u8], payload: &[u8], out: &mut Out, st: &mut Stats) {
+    let input = format!("c12pay {} {} {}", ty, hex(base), hex(payload));
+    st.pay_cases += 1;
+    if base.iter().any(|b| *b != 0) { st.nonzero_base += 1; }
+    let off = rfc_payload_offset(ty, base);
+    let fits = off + payload.len() <= base.len();
+    if fits { st.pay_fit += 1 } else { st.pay_no_fit += 1 }
+    if off + payload.len() == base.len() { st.pay_exact_fit += 1; }
+    if off > rfc_min(ty) { st.pay_with_options += 1; }
+    let r = std::panic::catch_unwind(|| {
+        let mut b = base.to_vec();
+        set(&mut b, payload);
+        let back = read(&b);
+        (b, back)
+    });
+    match r {
+        Err(e) => {
+            let oracle = if fits {
+                format!("FAIL:C12:panic_although_{}_octets_fit_at_{}_of_{}:{}", payload.len(), off, base.len(), crate::panic_msg(e).replace(' ', "_"))
+            } else {
+                "ok".to_string()
+            };
+            out.case(&input, "fault:panic", &oracle);
+        }
+        Ok((after, back)) => {
+            let oracle = if !fits {
+                format!("FAIL:C12:accepted_{}_octets_at_{}_of_{}", payload.len(), off, base.len())
+            } else if after.len() != base.len() {
+                format!("FAIL:C12:length_changed:{}->{}", base.len(), after.len())
+            } else if let Some(i) = (0..off).find(|i| after[*i] != base[*i]) {
+                format!("FAIL:C12:header_octet_{}_before_payload_offset_{}_changed_{:02x}->{:02x}", i, off, base[i], after[i])
+            } else if after[off..off + payload.len()] != *payload {
+                format!("FAIL:C12:payload_not_at_rfc_offset_{}:found_{}", off, hex(&after[off..off + payload.len()]))
+            } else if let Some(i) = (off + payload.len()..base.len()).find(|i| after[*i] != base[*i]) {
+                format!("FAIL:C12:octet_{}_behind_the_payload_changed_{:02x}->{:02x}", i, base[i], after[i])
+            } else {
+                let end = rfc_payload_end(ty, &after);
+                let want: &[u8] = if off < end { &after[off..end] } else { &[] };
+                if back != want {
+                    format!("FAIL:C12:read_side_returns_{}_expected_{}", hex(&back), hex(want))
+                } else {
+                    "ok".to_string()
+                }
+            };
+            out.case(&input, &hex(&after), &oracle);
+        }
+    }
+}
+
 /// boundary values of an argument type of `bits` bits for a field of width w
 fn boundary(bits: usize, w: usize) -> Vec<u128> {
     let max = low_bits(u128::MAX, bits);
@@ -550,6 +688,7 @@ fn random_value(rng: &mut Rng, bits: usize) -> u128 {
 pub fn run(args: &Args, out: &mut Out) {
     let fs = fields();
     let cs = ctors();
+    let ps = payload_setters();
     let mut st = Stats::default();
     if let Some(path) = &args.replay {
         for l in crate::replay_inputs(path) {
@@ -562,6 +701,10 @@ pub fn run(args: &Args, out: &mut Out) {
                         "set" | "seto" => set_case(f, parse_value(f.kind, t[4]), t[3] == "seto", &unhex(t[5]), out, &mut st),
                         _ => {}
                     }
+                }
+                "c12pay" => {
+                    let Some(p) = ps.iter().find(|p| p.0 == t[1]) else { continue };
+                    pay_case(p.0, p.1, p.2, &unhex(t[2]), &unhex(t[3]), out, &mut st);
                 }
                 "new" | "new_view" => {
                     let Some(c) = cs.iter().find(|c| c.0 == t[1]) else { continue };
@@ -658,7 +801,75 @@ pub fn run(args: &Args, out: &mut Out) {
             new_case(name, true, *nv, len, out, &mut st);
         }
     }
+    // ---- payload setters ----
+    // (generated after everything else so that the accessor / construction cases of a seed stay what they were)
+    for (ty, set, read) in &ps {
+        let min = rfc_min(ty);
+        // the header-length nibble decides the offset for IPv4 / TCP: all sixteen values; one pass elsewhere
+        let nibble: Option<(usize, usize)> = match *ty {
+            "ipv4" => Some(rfc_pos("ipv4", "header_length")),
+            "tcp" => Some(rfc_pos("tcp", "data_offset")),
+            _ => None,
+        };
+        let passes: Vec<Option<u128>> = if nibble.is_some() { (0..16).map(Some).collect() } else { vec![None] };
+        for hl in passes {
+            let off = match hl { Some(v) => (v as usize * 4).max(min), None => min };
+            // buffer lengths: the bare minimum, up to the offset (nothing fits, not even the empty payload when
+            // the offset lies beyond the end), the offset itself (only the empty payload fits), and room behind it
+            let mut lens: Vec<usize> = vec![min, off, off + 1, off + 4, off + rng.range(5, 40) as usize];
+            if off > min { lens.push(off - 1); lens.push(min + (off - min) / 2); }
+            if thorough { for _ in 0..6 { lens.push(min + rng.range(0, 80) as usize); } }
+            lens.sort_unstable();
+            lens.dedup();
+            for len in lens {
+                let mut bases: Vec<Vec<u8>> = vec![rng.bytes(len), vec![0u8; len], vec![0xFFu8; len]];
+                for _ in 0..(if thorough { 4 } else { 1 }) { bases.push(rng.bytes(len)); }
+                // IPv6 / extension object: the length field bounds the read side; besides the random, zero and
+                // all-ones fields above, plant one that cuts the payload region in the middle
+                let half = len.saturating_sub(off) / 2;
+                if *ty == "ipv6" {
+                    let (o, w) = rfc_pos("ipv6", "payload_length");
+                    let mut b = rng.bytes(len);
+                    put_slice(&mut b, o, w, half as u128);
+                    bases.push(b);
+                } else if *ty == "ext_object" {
+                    let (o, w) = rfc_pos("ext_object", "length");
+                    let mut b = rng.bytes(len);
+                    put_slice(&mut b, o, w, (off + half) as u128);
+                    bases.push(b);
+                }
+                for mut base in bases {
+                    if let (Some((o, w)), Some(v)) = (nibble, hl) { put_slice(&mut base, o, w, v); }
+                    let room = len.saturating_sub(off);
+                    let mut plens: Vec<usize> = vec![0, 1, room, room + 1, room + 2, room + rng.range(3, 20) as usize];
+                    if room >= 1 { plens.push(room - 1); }
+                    if room >= 3 { plens.push(rng.range(1, room as u64 - 1) as usize); }
+                    plens.sort_unstable();
+                    plens.dedup();
+                    for pl in plens {
+                        // payload octets that differ from the background at every position, so that a write at a
+                        // wrong offset cannot go unnoticed
+                        let payload: Vec<u8> = (0..pl).map(|j| {
+                            let r = rng.next() as u8;
+                            let bg = base.get(off + j).copied().unwrap_or(0);
+                            let bg0 = base.get(min + j).copied().unwrap_or(0); // where a write without the options term lands
+                            let mut x = r;
+                            while x == bg || x == bg0 { x = x.wrapping_add(0x5B); }
+                            x
+                        }).collect();
+                        pay_case(ty, *set, *read, &base, &payload, out, &mut st);
+                    }
+                }
+            }
+        }
+    }
     out.stat("accessor_pairs", fs.len());
+    out.stat("payload_setters", ps.len());
+    out.stat("payload_cases", st.pay_cases);
+    out.stat("payload_cases_that_fit", st.pay_fit);
+    out.stat("payload_cases_that_fit_exactly", st.pay_exact_fit);
+    out.stat("payload_cases_that_do_not_fit", st.pay_no_fit);
+    out.stat("payload_cases_with_options", st.pay_with_options);
     out.stat("packet_types", cs.len());
     out.stat("set_cases", st.set_cases);
     out.stat("get_cases", st.get_cases);
